@@ -99,11 +99,24 @@ pub mod watchdog {
     use std::sync::{Mutex, OnceLock};
     use std::time::Instant;
     static CUR: OnceLock<Mutex<(String, Instant, Option<String>)>> = OnceLock::new();
-    pub fn start(out_path: Option<String>, limit_s: f64) {
+    /// `total_s`: generous bound on the whole worker (several times its own time budget); a worker that is still
+    /// running then is recorded as stuck (inconclusive) as well - its loops only look at the budget between grammars.
+    pub fn start(out_path: Option<String>, limit_s: f64, total_s: f64) {
         CUR.get_or_init(|| Mutex::new((String::new(), Instant::now(), out_path)));
+        let t0 = Instant::now();
         std::thread::spawn(move || loop {
             std::thread::sleep(std::time::Duration::from_millis(500));
             let g = CUR.get().unwrap().lock().unwrap();
+            if t0.elapsed().as_secs_f64() > total_s {
+                if let Some(p) = &g.2 {
+                    use std::io::Write;
+                    if let Ok(mut f) = std::fs::OpenOptions::new().append(true).open(p) {
+                        let _ = writeln!(f, "{}", serde_json::json!({"k": "stuck", "limit_s": total_s, "case": {"whole_worker": true, "last_case": serde_json::from_str::<serde_json::Value>(&g.0).unwrap_or(serde_json::Value::Null)}}));
+                    }
+                }
+                eprintln!("watchdog: worker still running after {total_s}s");
+                std::process::exit(3);
+            }
             if !g.0.is_empty() && g.1.elapsed().as_secs_f64() > limit_s {
                 if let Some(p) = &g.2 {
                     use std::io::Write;
